@@ -821,8 +821,12 @@ static int _fetch_and_process_packet(OggVorbis_File *vf,
                1) our decoding just traversed a bitstream boundary
                2) another stream is multiplexed into this logical section */
 
-            if(ogg_page_bos(&og)){
-              /* boundary case */
+            if(ogg_page_bos(&og) &&
+               !(vf->seekable && ret>=vf->offsets[vf->current_link] &&
+                 ret<vf->offsets[vf->current_link+1])){
+              /* boundary case (a BOS page inside the current link
+                 begins a stream multiplexed into it, not the next
+                 link: possibility #2) */
               if(!spanp){
                 /* not allowed to cross; put the page back (if we can) so
                    that a later spanning read still sees the boundary
